@@ -9,6 +9,7 @@ import copy, itertools, json
 from fractions import Fraction
 import networkx as nx
 import common, gen
+import gencheck
 from engines import c19_inputs as ci
 
 LEVEL = "proof"
@@ -252,6 +253,7 @@ def run(ctx):
     outs = ctx.model.run([c[6] for c in cases])
     for (stream, cls, idx, viols, spec, a, req, r), out in zip(cases, outs):
         check_case(ctx, stream, cls, idx, viols, spec, a, req, out, r)
+    gencheck.run_generated(ctx, ["nonneg_check", "check_flow_conservation"])      # generated-model tie (coq/gen_proofs)
 
 
 def check_case(ctx, stream, cls, idx, viols, spec, a, req, out, r):
